@@ -5,7 +5,13 @@ from vlib.core import hx, ROOT
 
 MODULES = ["TLVerif.Props.C40"]
 THEOREMS = ["TLVerif.Props.C40." + t for t in [
-    "tags_distinct",
+    "request_tags_distinct", "result_tags_distinct", "tag_values", "layouts_as_modelled", "primitives_as_modelled", "limits_and_codes",
+    "reqextra_roundtrip", "resextra_roundtrip", "reqextra_roundtrip_consistent", "reqextra_wf_of_short", "resextra_wf_of_short",
+    "map_representation_canonical",
+    "request_roundtrip", "request_extras_unchanged", "prepare_shape", "request_timeout",
+    "response_roundtrip", "response_flags_subset", "response_extras_unchanged", "error_roundtrip", "error_codes",
+    "error_code_preserved", "error_code_zero_is_unknown", "no_result_no_answer",
+    "exchange_ok", "exchange_err", "body_tag_hypothesis_needed", "result_tag_hypothesis_needed",
 ]]
 
 M32 = 2**32
